@@ -62,6 +62,13 @@ def parent_of_difference(a, b, path=("root",)):
     return path + (a["t"],)
 
 
+def _own(n):
+    """The parameters of a node itself (not of its children): what its own merge can compare before touching anything."""
+    ch = n.get("ch")
+    return (n["t"], repr(n.get("p")), n.get("range"),
+            tuple(sorted(ch)) if isinstance(ch, dict) else (len(ch) if ch is not None else None))
+
+
 def check_merge(sa, sb, ha, hb, label, reload_right=False):
     """a (spec sa, history ha) and b (spec sb, history hb) are incompatible: every merge must raise and leave
     both untouched."""
@@ -134,7 +141,9 @@ def check_merge(sa, sb, ha, hb, label, reload_right=False):
             is_left = (nm == "a") == (op in ("a+b", "a+=b"))
             out.append(FW.violation(PROP, "merge", "%s.%s" % (left.name, opname)
                                     if is_left else "right-operand of %s.%s" % (left.name, opname),
-                                    "operand-changed-by-rejected-merge" if is_left else "right-operand-changed",
+                                    ("operand-changed-although-its-own-parameters-differ" if (
+                                        len(chain) == 2 and _own(sa) != _own(sb)) else
+                                     "operand-changed-by-rejected-merge") if is_left else "right-operand-changed",
                                     oa, {"operand": nm, "diff": d, "exception": repr(raised)[:200]}))
     return out
 
